@@ -173,3 +173,55 @@ func verifH_C05_attach_after_accept() {
 	}
 	verifReach("end")
 }
+
+// C05_route_client: the client-side router (real Manager.onEIOPacket -> onParserFinish -> clientSocket.onPacket): a client
+// with sockets on a symbolic subset of {/, /a} receives an EVENT addressed to /, /a, /b, "" or a SYMBOLIC "/"+x (look-alike
+// names included): only the socket of exactly that namespace sees it, once; an event for a namespace without a socket
+// reaches nobody and disturbs nothing (the connection stays).
+//
+//verif:unwind 12
+func verifH_C05_route_client() {
+	var log []verifEncoded
+	hasRoot, hasA := verifAnyBool(), verifAnyBool()
+	var names []string
+	if hasRoot {
+		names = append(names, "/")
+	}
+	if hasA {
+		names = append(names, "/a")
+	}
+	m, cl := verifClientWorld(&verifFrameParser{log: &log}, names...)
+	hits := map[string]int{}
+	for n, s := range cl {
+		name := n
+		s.OnEvent("ev", func() { hits[name]++ })
+	}
+	closes := 0
+	m.OnClose(func(Reason, error) { closes++ })
+	targets := []string{"/", "/a", "/b", ""}
+	target := ""
+	if k := verifChoose(0, 4); k < 4 {
+		target = targets[k]
+	} else {
+		x := verifString(verifChoose(1, 2))
+		for i := 0; i < len(x); i++ {
+			verifAssume(x[i] != ',')
+		}
+		target = "/" + x
+	}
+	eff := target
+	if eff == "" {
+		eff = "/"
+	}
+	m.onEIOPacket(verifMsg("2" + target + ",ev"))
+	verifWaitQuiescent()
+	for n := range cl {
+		want := 0
+		if n == eff {
+			want = 1
+		}
+		verifAssert(hits[n] == want, "an event reaches only the client socket of exactly its namespace, once")
+	}
+	verifAssert(closes == 0, "an event for a namespace without a socket does not disturb the connection")
+	verifReach("end")
+}
